@@ -144,7 +144,7 @@ theorem split_vs_whole (hcl : TextBlind w.ctl E) (hwf : WfChunkWith w.tbl fs = t
     · left
       rw [run_cons, r1]
       exact uncleanL_of_unclean hun List.mem_cons_self
-    rcases hcase with ⟨e, he, hres⟩ | ⟨c', d', mid, he, hok, hdrop, hmid, hle, hprel, hK, hr, hloc⟩
+    rcases hcase with ⟨e, he, hres⟩ | ⟨c', d', mid, he, hok, _, hdrop, hmid, hle, hprel, hK, hr, hloc⟩
     · subst he
       rcases whole_err W0 hW0 inpW RW hRW hpW hprF with hun | hout
       · exact Or.inr (Or.inl hun)
@@ -212,6 +212,114 @@ theorem split_vs_whole (hcl : TextBlind w.ctl E) (hwf : WfChunkWith w.tbl fs = t
       · refine Or.inr (Or.inr ⟨?_, fun h => ?_⟩)
         · rw [hout, run_cons, r1, hres]; rfl
         · rw [run_cons, r1, hres] at h; cases h
+
+theorem writeAll_cons (R : Rewriter γ) (c : Bytes) (cs : List Bytes) :
+    C01.writeAll w R (c :: cs) =
+      ((C01.writeAll w (R.write w c).1 cs).1, (R.write w c).2 :: (C01.writeAll w (R.write w c).1 cs).2) := rfl
+
+/-- **Successful writes against the single `write` of their concatenation** (no `end`): the sink has received
+the same bytes. -/
+theorem writes_vs_whole (hcl : TextBlind w.ctl E) (hwf : WfChunkWith w.tbl fs = true) (W0 : Stream γ) (hW0 : W0.pending = [])
+    (inpW : Bytes) (RW : Rewriter γ) (hRW : RW.stream = W0) (hpW : RW.poisoned = false) :
+    ∀ (cs : List Bytes) (c : Bytes) (R : Rewriter γ) (written : Bytes), R.poisoned = false →
+      Inv w E fs inpW W0.parser (W0.parser.machine false) R.stream written → inpW = written ++ (c :: cs).flatten →
+      (∀ r ∈ (C01.writeAll w R (c :: cs)).2, r = .ok) →
+      Unclean (W0.write w inpW).2 ∨
+      ((RW.write w inpW).2 = .ok ∧ sinkBytes (C01.writeAll w R (c :: cs)).1.sink = sinkBytes (RW.write w inpW).1.sink ∧
+        E (C01.writeAll w R (c :: cs)).1.stream.disp.ctl (RW.write w inpW).1.stream.disp.ctl) := by
+  intro cs
+  induction cs with
+  | nil =>
+    intro c R written hp hinv hdoc hall
+    have hdoc' : inpW = written ++ c := by rw [hdoc]; simp
+    obtain ⟨r1, r2, r3⟩ := write_res (w := w) R hp c
+    have hok1 : (R.write w c).2 = .ok := hall _ (by rw [writeAll_cons]; exact List.mem_cons_self)
+    rw [r1] at hok1
+    have hokS := callRes_ok hok1
+    rcases write_last hcl hwf hinv hdoc' with hun | ⟨pwF, rwF, hprF, hcase⟩
+    · rcases hun with ⟨m, hm⟩ | hm <;> rw [hm] at hokS <;> cases hokS
+    rcases hcase with ⟨e, he, hres⟩ | ⟨c', d', mid, he, hok, hd0, hdrop, hmid, hle, hprel, hK, hr, hloc⟩
+    · rw [hres] at hokS; cases hokS
+    subst he hd0
+    obtain ⟨w1, w2, w3⟩ := write_res (w := w) RW hpW inpW
+    rw [hRW] at w1 w2 w3
+    rcases whole_ok W0 hW0 inpW hprF hK.emT.2 with hun | ⟨dw', hfl, hokW, hpendW, hparsW⟩
+    · exact Or.inl hun
+    obtain ⟨hKf, _, hrw, _⟩ := DK.flushW hK hr rfl hfl
+    have hk0 := DK_zero.1 hKf
+    right
+    have hW1 := w2 hokW
+    have hR1 := r2 hok
+    refine ⟨by rw [w1, hokW]; rfl, ?_, ?_⟩
+    · show sinkBytes (R.write w c).1.stream.disp.sink = sinkBytes (RW.write w inpW).1.stream.disp.sink
+      rw [hW1, hR1]
+      have hdispW : (W0.write w inpW).1.disp = dw' := by
+        show (W0.write w inpW).1.parser.x.sink = dw'
+        rw [hparsW]; rfl
+      show sinkBytes (R.stream.write w c).1.disp.sink = sinkBytes (W0.write w inpW).1.disp.sink
+      rw [hdispW, hk0.bytes.bytes, hk0.emT, hr, hrw]
+      simp only [if_true]
+      rw [slice_self, List.append_nil]
+    · show E (R.write w c).1.stream.disp.ctl (RW.write w inpW).1.stream.disp.ctl
+      rw [hW1, hR1]
+      have hdispW : (W0.write w inpW).1.disp = dw' := by
+        show (W0.write w inpW).1.parser.x.sink = dw'
+        rw [hparsW]; rfl
+      show E (R.stream.write w c).1.disp.ctl (W0.write w inpW).1.disp.ctl
+      rw [hdispW]
+      exact hk0.ctl
+  | cons c2 cs' ih =>
+    intro c R written hp hinv hdoc hall
+    have hdoc' : inpW = written ++ c ++ (c2 :: cs').flatten := by rw [hdoc]; simp
+    obtain ⟨r1, r2, r3⟩ := write_res (w := w) R hp c
+    have hok1 : (R.write w c).2 = .ok := hall _ (by rw [writeAll_cons]; exact List.mem_cons_self)
+    rw [r1] at hok1
+    have hokS := callRes_ok hok1
+    rcases write_open hcl hwf hinv hdoc' with hun | ⟨hok, hinv'⟩ | ⟨e, pw', hres, hprW⟩
+    · rcases hun with ⟨m, hm⟩ | hm <;> rw [hm] at hokS <;> cases hokS
+    · have hR1 := r2 hok
+      rw [writeAll_cons]
+      exact ih c2 (R.write w c).1 (written ++ c) (by rw [hR1]; exact hp) (by rw [hR1]; exact hinv') hdoc'
+        (fun r hr => hall r (by rw [writeAll_cons]; exact List.mem_cons_of_mem _ hr))
+    · rw [hres] at hokS; cases hokS
+
+/-- a fresh stream is related to itself -/
+theorem inv_init (hcl : TextBlind w.ctl E) (hwf : WfChunkWith w.tbl fs = true) (g : γ) (cfg : Settings) (inpW : Bytes) :
+    Inv w E fs inpW (Stream.new w g cfg).parser ((Stream.new w g cfg).parser.machine false) (Stream.new w g cfg) [] := by
+  refine ⟨0, 0, 0, _, _, [], rfl, rfl, fun _ _ h => h, PRelM.init hwf inpW _ _ _, ?_, rfl, fun h => absurd h (Nat.lt_irrefl 0)⟩
+  rw [machine_x]
+  refine DK_zero.2 ⟨hcl.refl _, ⟨rfl, rfl, rfl, rfl, rfl, rfl⟩, ⟨rfl, rfl, rfl⟩, ⟨Nat.le_refl _, ?_⟩, rfl⟩
+  show sinkBytes (Stream.new w g cfg).disp.sink = sinkBytes (Stream.new w g cfg).disp.sink ++
+    (if true = true then LolHtml.slice inpW 0 (0 + 0) else [])
+  simp only [if_true]
+  rw [slice_self, List.append_nil]
+
+/-- **Every chunking agrees with the single `write`.** -/
+theorem chunking_vs_single (hcl : TextBlind w.ctl E) (hwf : WfChunkWith w.tbl fs = true) (g : γ) (cfg : Settings)
+    (cs : List Bytes) (hne : cs ≠ []) :
+    UncleanL (C01.run w (C01.Rewriter.new w g cfg) cs).2 ∨
+    UncleanL (C01.run w (C01.Rewriter.new w g cfg) [cs.flatten]).2 ∨
+    Agree E (C01.run w (C01.Rewriter.new w g cfg) cs) (C01.run w (C01.Rewriter.new w g cfg) [cs.flatten]) := by
+  cases cs with
+  | nil => exact absurd rfl hne
+  | cons c cs =>
+    exact split_vs_whole hcl hwf (Stream.new w g cfg) rfl (c :: cs).flatten (C01.Rewriter.new w g cfg) rfl rfl cs c
+      (C01.Rewriter.new w g cfg) [] rfl (inv_init hcl hwf g cfg _) (by simp)
+
+/-- **Successful writes against one write of the same bytes.** -/
+theorem writes_vs_single (hcl : TextBlind w.ctl E) (hwf : WfChunkWith w.tbl fs = true) (g : γ) (cfg : Settings)
+    (cs : List Bytes) (hne : cs ≠ []) (hall : ∀ r ∈ (C01.writeAll w (C01.Rewriter.new w g cfg) cs).2, r = .ok) :
+    Unclean ((Stream.new w g cfg).write w cs.flatten).2 ∨
+    (((C01.Rewriter.new w g cfg).write w cs.flatten).2 = .ok ∧
+      sinkBytes (C01.writeAll w (C01.Rewriter.new w g cfg) cs).1.sink =
+        sinkBytes ((C01.Rewriter.new w g cfg).write w cs.flatten).1.sink ∧
+      E (C01.writeAll w (C01.Rewriter.new w g cfg) cs).1.stream.disp.ctl
+        ((C01.Rewriter.new w g cfg).write w cs.flatten).1.stream.disp.ctl) := by
+  cases cs with
+  | nil => exact absurd rfl hne
+  | cons c cs =>
+    exact writes_vs_whole hcl hwf (Stream.new w g cfg) rfl (c :: cs).flatten (C01.Rewriter.new w g cfg) rfl rfl cs c
+      (C01.Rewriter.new w g cfg) [] rfl (inv_init hcl hwf g cfg _) (by simp) hall
 
 end
 
